@@ -80,6 +80,20 @@ def check_asm(c):
                 return "affine", "grid %s ndof %d bc %s: A(x) is not A0 + sum x_e (A_e - A0)" % (c["g"], c["ndof"], bc)
             if not np.array_equal(s.state, x):
                 return "input-changed", "response() changed the scaling vector"
+            # the same affine map with other admissible number types: a complex scaling vector (dyadic real and imaginary parts)
+            # and an integer-typed element matrix with a fractional scaling vector -- the result type follows the products
+            xi = rng.integers(-4, 5, dom.nel) / 4.0
+            lin = lambda xv: sum(xv[e] * (cols[e] - A0) for e in range(dom.nel))
+            for tname, mk, xv in (("complex-x", lambda: m, x + 1j * xi),
+                                  ("integer-element-matrix", lambda: pym.AssembleGeneral(s, domain=dom, element_matrix=Ke.astype(int), **kw), x)):
+                if tname == "integer-element-matrix" and (not np.array_equal(Ke, Ke.astype(int)) or (bc and dv is None)):
+                    continue
+                mm = mk()
+                s.state = xv
+                At = mm.response().sig_out[0].state
+                At = At.toarray() if sps.issparse(At) else None
+                if At is None or not np.array_equal(At, A0 + lin(xv) + add):
+                    return "affine/" + tname, "grid %s ndof %d bc %s (%s) %s: A(x) is not A0 + sum x_e (A_e - A0) for %s" % (c["g"], c["ndof"], bc, bcname, mt.__name__, tname)
     return None
 
 
